@@ -2,7 +2,7 @@
    sequences and payloads in the same order (node-level idempotence of the model). *)
 From Coq Require Import NArith List Bool Arith Lia Permutation.
 From DBG Require Import Spec.Dna Spec.GraphIndex Packed.ExtsModel Algo.Compress Algo.GraphModel
-  Algo.Recompress Check.RecompCheck Proofs.AbstractWalk Proofs.RecompCheckProofs Proofs.RecompressProofs.
+  Algo.Recompress Check.RecompCheck Proofs.AbstractWalk Proofs.RecompCheckProofs Proofs.RecompSweeps Proofs.RecompressProofs.
 Import ListNotations.
 Open Scope N_scope.
 
@@ -126,3 +126,106 @@ Proof.
       apply nth_error_None in E0. now rewrite E1, E0.
 Qed.
 End Idem.
+
+(* ---- full idempotence of the model: a valid graph without a mergeable pair of distinct nodes is a fixed point ---- *)
+Section IdemFull.
+Variable D : Type.
+Variable reduce : D -> D -> D.
+Variable join : D -> D -> bool.
+Variable K : nat.
+Variable stranded : bool.
+Hypothesis join_sym : forall a b, join a b = join b a.
+Local Notation graph := (graph D).
+
+(* pruning a graph all of whose extensions are kept anyway returns it unchanged *)
+Lemma pruned_id (g out : graph) valid :
+  (forall i n, nth_error g i = Some n -> n_exts D n < 256) ->
+  (forall i n d b, nth_error g i = Some n -> In b bases4 -> e_has_ext (n_exts D n) (dirb d) b = true ->
+     keeps D K stranded g valid i d b = true) ->
+  pruned_of D K stranded g valid out -> out = g.
+Proof.
+  intros Hlt Hk (Hlen & _ & Hsp). apply nth_error_ext_. intro i.
+  destruct (nth_error g i) as [n|] eqn:En.
+  - destruct (Hsp i n En) as (e & He & Hlte & Hb). rewrite He. f_equal.
+    assert (e = n_exts D n).
+    { apply exts_ext_eq; auto; [eapply Hlt; eauto|]. intros d b Hb'.
+      assert (Hd : forall d0, e_has_ext e (dirb d0) b = e_has_ext (n_exts D n) (dirb d0) b).
+      { intro d0. rewrite (Hb d0 b Hb').
+        destruct (e_has_ext (n_exts D n) (dirb d0) b) eqn:Eh; [exact (Hk i n d0 b En Hb' Eh)|].
+        unfold keeps, ext_link. now rewrite En, Eh. }
+      destruct d; [exact (Hd DRight) | exact (Hd DLeft)]. }
+    subst e. destruct n as [[? ?] ?]. reflexivity.
+  - apply nth_error_None. rewrite Hlen. now apply nth_error_None.
+Qed.
+Lemma fix_exts_id (g g' : graph) valid :
+  (forall i n, nth_error g i = Some n -> n_exts D n < 256) ->
+  (forall i n d b, nth_error g i = Some n -> In b bases4 -> e_has_ext (n_exts D n) (dirb d) b = true ->
+     keeps D K stranded g valid i d b = true) ->
+  fix_exts D K stranded g valid = Some g' -> g' = g.
+Proof.
+  intros Hlt Hk Hf. destruct (fix_exts_spec D K stranded g valid) as (g0 & H0 & Hlen & Hseq & Hsp).
+  assert (g0 = g') by congruence. subst g0. eapply pruned_id; eauto. unfold pruned_of. auto.
+Qed.
+
+Lemma rvalid_keeps_all (g : graph) valid :
+  rvalid D K stranded g -> (forall t, (t < length g)%nat -> chk_valid valid t = true) ->
+  forall i n d b, nth_error g i = Some n -> In b bases4 -> e_has_ext (n_exts D n) (dirb d) b = true ->
+     keeps D K stranded g valid i d b = true.
+Proof.
+  intros (_ & _ & _ & _ & Hres & _) Hv i n d b Hn Hb Hh. unfold keeps.
+  pose proof (Hres i d b n Hn Hb Hh) as Hr.
+  destruct (ext_link D K stranded g i d b) as [[[t s] f]|] eqn:E; [|congruence].
+  apply Hv. unfold ext_link in E. rewrite Hn, Hh in E.
+  destruct (find_link_end D K stranded g _ d t s f E) as (m & Hm & _). apply nth_error_Some. congruence.
+Qed.
+
+Theorem recompress_idempotent_full (g : graph) :
+  rvalid D K stranded g ->
+  (forall x d y t, rnext D join K stranded g x d = Some (y, t) -> y = x) ->
+  compress_graph D reduce join K stranded g None = Some g.
+Proof.
+  intros V Hself.
+  assert (Hlt : forall i n, nth_error g i = Some n -> n_exts D n < 256).
+  { intros i n Hn. destruct V as (Hok & _). eapply node_ok_nth in Hok; eauto. apply Hok. }
+  destruct (recompress_refines_walk_ D reduce join K stranded join_sym g None V) as (g1 & out & r & Hg1 & W & Hc & Hok & Hp).
+  change (survivors D g None) with (seq 0 (length g)) in *.
+  assert (g1 = g).
+  { eapply fix_exts_id; [exact Hlt | | exact Hg1]. apply rvalid_keeps_all; auto.
+    intros t Ht. cbn. apply mem_nat_In. apply in_seq. lia. }
+  subst g1.
+  destruct (recompress_idempotent_nodes D reduce join K stranded join_sym g out (map snd r) V) as (Hpaths & _ & _).
+  { intros g1 Hg1'. assert (g1 = g) by congruence. subst g1. exact Hself. }
+  { exact Hc. }
+  (* every element of r is the input node itself *)
+  assert (Hr : map fst r = g).
+  { assert (Hlr : length r = length g).
+    { apply (f_equal (@length _)) in Hpaths. now rewrite !map_length, seq_length in Hpaths. }
+    apply nth_error_ext_. intro i. rewrite nth_error_map.
+    destruct (nth_error r i) as [x|] eqn:Ex.
+    2:{ apply nth_error_None in Ex. rewrite Hlr in Ex. apply nth_error_None in Ex. now rewrite Ex. }
+    assert (Hi : (i < length g)%nat) by (rewrite <- Hlr; apply nth_error_Some; congruence).
+    assert (Hsx : snd x = [(i, DLeft)]).
+    { apply (f_equal (fun l => nth_error l i)) in Hpaths. rewrite !nth_error_map, Ex in Hpaths.
+      rewrite (nth_error_nth' _ 0%nat) in Hpaths by (now rewrite seq_length). rewrite seq_nth in Hpaths by auto.
+      cbn in Hpaths. now injection Hpaths. }
+    destruct (Forall2_nth_elim _ _ _ _ _ Hok Ex) as (N & _ & _ & lp & seed & rp & Hp0 & Hb & _).
+    rewrite Hsx in Hp0.
+    assert (lp = [] /\ rp = [] /\ seed = i).
+    { apply (f_equal (map fst)) in Hp0. rewrite assemble_verts in Hp0. unfold node_verts in Hp0. cbn in Hp0.
+      destruct lp as [|a lp].
+      - cbn in Hp0. injection Hp0 as -> Hrp. destruct rp; [auto | discriminate].
+      - exfalso. cbn in Hp0. apply (f_equal (@length nat)) in Hp0. rewrite !app_length in Hp0. cbn in Hp0.
+        rewrite rev_length in Hp0. lia. }
+    destruct H as (-> & -> & ->).
+    destruct Hb as (Hsq & (sd0 & ds & Hd1 & Hd2 & Hd3) & Hex).
+    unfold assemble in Hsq. cbn in Hsq, Hex, Hd1, Hd2.
+    destruct (nth_error g i) as [n|] eqn:En; [|discriminate].
+    cbn in Hsq. rewrite app_nil_r in Hsq. injection Hsq as Hsq.
+    injection Hd1 as <-. injection Hd2 as <-. cbn in Hd3.
+    unfold texts in Hex. cbn [fst snd ds dirb] in Hex. rewrite En in Hex.
+    rewrite single_dirs_id in Hex by (eapply Hlt; eauto).
+    cbn. f_equal. destruct x as [[[sq e] dt] p]. destruct n as [[sq' e'] dt']. cbn in *. congruence. }
+  unfold compress_graph. rewrite Hc. cbn. f_equal. rewrite Hr in Hp.
+  eapply pruned_id; [exact Hlt | | exact Hp]. apply rvalid_keeps_all; auto.
+Qed.
+End IdemFull.
